@@ -9,7 +9,7 @@
    BlockScanner and the regress check of BlockRecoverRunner read back - over whatever older content the block held
    before - is exactly the list of entries the flusher wrote into it, in order, at the addresses given to the indexer. *)
 From Coq Require Import List NArith Bool Sorted.
-From FV Require Import Disk.Splitter Disk.SplitterProofs Disk.Scan Disk.ScanProofs.
+From FV Require Import Disk.Codec Disk.BlobIndex Disk.BlobIndexProofs Disk.Splitter Disk.SplitterProofs Disk.Scan Disk.ScanProofs.
 Import ListNotations.
 Open Scope N_scope.
 
@@ -104,3 +104,12 @@ Example c07_reinsertion_breaks_the_scan :
   let ps := [mkPart 0 0 4096 8192 [mkIdx 1 7 4096 100; mkIdx 2 2 8192 100] 2; mkPart 0 0 12288 4096 [mkIdx 3 8 12288 100] 3] in
   recover_block 65536 4096 (rd (written 4096 ps) (fun _ => None)) = [mkInfo 1 7 4096 100].
 Proof. vm_compute. reflexivity. Qed.
+
+(* The index page byte by byte (Disk/BlobIndex.v): what BlobIndex::write / seal put into the page, BlobIndexReader::read
+   returns - exactly those entries, in order, whatever the rest of the (reused) page buffer holds.  [cksum] is external
+   code (XXH64): any function with 64-bit results. *)
+Theorem c07_index_page_roundtrip : forall cksum, (forall b, (cksum b < 256 ^ 8)%N) -> forall es rest,
+  Forall bent_ok es -> (N.of_nat (length es) < 256 ^ 4)%N ->
+  bidx_read cksum (bidx_page cksum es rest) = BOk es.
+Proof. exact bidx_roundtrip. Qed.
+Print Assumptions c07_index_page_roundtrip.
